@@ -753,7 +753,7 @@ private:
              "_active_thread_contexts_cache");
 
       TransitEvent const* te = tc->_transit_event_buffer->front();
-      if (te && (min_ts > te->timestamp))
+      if (te && (!thread_context || (min_ts > te->timestamp)))
       {
         min_ts = te->timestamp;
         thread_context = tc;
